@@ -2,21 +2,27 @@
 (* tower-resilience-healthcheck (C18): per-resource threshold machine and selection.
    cfg = [n (resources 1..n), ft (failure threshold), sth (success threshold), strat ("first"|"rr"|"prefer")].
    A check round consumes one result per resource: "h" healthy, "d" degraded, "u" unhealthy,
-   "k" unknown, "s" slower than the check timeout (= failed), "x" hanging (= failed at the timeout). *)
+   "k" unknown, "s" slower than the check timeout (= failed), "x" hanging (= failed at the timeout).
+   cfg.trig = 1: health triggers (feature "triggers", healthcheck/src/triggers.rs) are registered: a counting
+   trigger and a real circuit breaker (circuitbreaker/src/health_integration.rs). A published status change whose
+   trigger class (healthy | degraded | unhealthy-or-unknown) changes notifies every trigger once; the breaker is
+   forced open by "unhealthy", forced closed by "healthy", untouched by "degraded". Deliberate deviations of the
+   code, modelled as they are: unknown -> unhealthy notifies nobody (same class), so a resource that starts failing
+   never opens the breaker until it has been healthy or degraded once; degraded leaves an open breaker open. *)
 EXTENDS Integers, Sequences, FiniteSets, TLC
 CONSTANTS CfgSet, Results, MaxRes, MaxRounds
-VARIABLES cfg, status, cf, cs, rounds, lastElig, lastKind, cnt, ev
-vars == <<cfg, status, cf, cs, rounds, lastElig, lastKind, cnt, ev>>
-view == <<cfg, status, cf, cs, rounds, lastElig, lastKind, cnt>>
+VARIABLES cfg, status, cf, cs, rounds, lastElig, lastKind, cnt, brk, ev
+vars == <<cfg, status, cf, cs, rounds, lastElig, lastKind, cnt, brk, ev>>
+view == <<cfg, status, cf, cs, rounds, lastElig, lastKind, cnt, brk>>
 Res == 1..MaxRes
 R == 1..cfg.n
 InitWith(cf0) ==
   /\ cfg = cf0 /\ status = [r \in Res |-> "unknown"] /\ cf = [r \in Res |-> 0] /\ cs = [r \in Res |-> 0]
-  /\ rounds = 0 /\ lastElig = {} /\ lastKind = "none" /\ cnt = [r \in Res |-> 0]
+  /\ rounds = 0 /\ lastElig = {} /\ lastKind = "none" /\ cnt = [r \in Res |-> 0] /\ brk = "closed"
 Init == (\E c \in CfgSet : InitWith(c)) /\ ev = [e |-> "init"]
 Reset(c) ==
   /\ cfg' = c /\ status' = [r \in Res |-> "unknown"] /\ cf' = [r \in Res |-> 0] /\ cs' = [r \in Res |-> 0]
-  /\ rounds' = 0 /\ lastElig' = {} /\ lastKind' = "none" /\ cnt' = [r \in Res |-> 0] /\ ev' = [e |-> "reset"]
+  /\ rounds' = 0 /\ lastElig' = {} /\ lastKind' = "none" /\ cnt' = [r \in Res |-> 0] /\ brk' = "closed" /\ ev' = [e |-> "reset"]
 Failed(x) == x \in {"u", "s", "x"}     \* "x": a check that hangs and is cut off by the check timeout
 NewCf(r, x) == IF Failed(x) THEN cf[r] + 1 ELSE IF x \in {"h", "d"} THEN 0 ELSE cf[r]
 NewCs(r, x) == IF x \in {"h", "d"} THEN cs[r] + 1 ELSE IF Failed(x) THEN 0 ELSE cs[r]
@@ -27,6 +33,13 @@ NewStatus(r, x) ==
   ELSE IF x = "d" THEN "degraded"
   ELSE IF Failed(x) THEN (IF NewCf(r, x) >= cfg.ft THEN "unhealthy" ELSE status[r])
   ELSE status[r]
+\* health triggers: the class a status is reported as, the resources whose class changes in a round
+Class(s) == IF s = "healthy" THEN "H" ELSE IF s = "degraded" THEN "D" ELSE "U"
+Trig == "trig" \in DOMAIN cfg /\ cfg.trig = 1
+Flips(res, cl) == {r \in R : Class(status[r]) # Class(NewStatus(r, res[r])) /\ Class(NewStatus(r, res[r])) = cl}
+\* the breaker after a round: untouched without an H or U notification; otherwise what the last of them asked for
+\* (the order of notifications of different resources within one round is not fixed)
+BrkAfter(res) == (IF Flips(res, "U") # {} THEN {"open"} ELSE {}) \cup (IF Flips(res, "H") # {} THEN {"closed"} ELSE {})
 \* res: function R -> Results
 Round(res) ==
   /\ status' = [r \in Res |-> IF r \in R THEN NewStatus(r, res[r]) ELSE status[r]]
@@ -35,6 +48,9 @@ Round(res) ==
   /\ rounds' = rounds + 1
   /\ ev' = [e |-> "round", status |-> [r \in R |-> NewStatus(r, res[r])], cf |-> [r \in R |-> NewCf(r, res[r])],
             cs |-> [r \in R |-> NewCs(r, res[r])], checks |-> [r \in R |-> 1]]
+           @@ (IF Trig THEN [tu |-> Cardinality(Flips(res, "U")), th |-> Cardinality(Flips(res, "H")),
+                             td |-> Cardinality(Flips(res, "D"))] ELSE <<>>)
+  /\ (IF Trig /\ BrkAfter(res) # {} THEN brk' \in BrkAfter(res) ELSE brk' = brk)
   /\ UNCHANGED <<cfg, lastElig, lastKind, cnt>>
 Eligible(kind) == IF kind = "healthy" THEN {r \in R : status[r] = "healthy"} ELSE {r \in R : status[r] \in {"healthy", "degraded"}}
 \* selection: nothing iff nobody qualifies; otherwise a resource that qualifies now;
@@ -47,7 +63,7 @@ Select(kind, got) ==
      /\ (cfg.strat = "rr" /\ E # {}) => \A a, b \in E : c1[a] - c1[b] <= 1
      /\ cnt' = c1 /\ lastElig' = E /\ lastKind' = kind
      /\ ev' = [e |-> "sel", kind |-> kind, got |-> got]
-     /\ UNCHANGED <<cfg, status, cf, cs, rounds>>
+     /\ UNCHANGED <<cfg, status, cf, cs, rounds, brk>>
 \* model checking: the implementation's own choice functions
 Pick(kind) ==
   LET E == Eligible(kind) IN
@@ -64,6 +80,10 @@ Spec == Init /\ [][Next]_vars
 CountersExclusive == \A r \in R : cf[r] = 0 \/ cs[r] = 0
 \* a resource whose last check failed below the threshold keeps its old status; one whose run reaches it is unhealthy
 FailRunPublished == \A r \in R : cf[r] >= cfg.ft => status[r] = "unhealthy"
+\* triggers, one resource: a healthy resource never sits behind a breaker its own health check opened, and the
+\* breaker is open only if the resource has been reported unhealthy since it was last reported healthy
+TrigHealthyClosed == (Trig /\ cfg.n = 1 /\ status[1] = "healthy") => brk = "closed"
+TrigOpenOnlyAfterUnhealthy == (Trig /\ brk = "open") => \E r \in R : status[r] # "healthy"
 \* C18 as action properties: a status flips only at its thresholds
 FlipsOnlyAtThresholds ==
   [][\A r \in R :
